@@ -98,7 +98,7 @@ func (f *Frame) call(st *State, x *ssa.Call, c *ssa.CallCommon, pos token.Pos) {
 		return
 	}
 	name := callee.String()
-	if ext := vc.eng.ext[name]; ext != nil {
+	if ext := vc.eng.extFor(callee); ext != nil {
 		vc.usedExt[name] = true
 		setResult(ext.apply(f, st, c, args, resultType, pos))
 		return
@@ -185,7 +185,7 @@ func (f *Frame) materializePtrArgs(st *State, callee *ssa.Function, args []Val) 
 		}
 		loc := a.Loc
 		cur := vc.load(st, loc)
-		r := vc.alloc(st, "tmp")
+		r := vc.alloc(st, "tmp", kindOfPtr(a.T))
 		tl := objLoc(a.T, r)
 		vc.store(st, tl, cur)
 		res[i] = Val{T: a.T, L: []Term{r}}
@@ -296,7 +296,7 @@ func (f *Frame) contractCall(st *State, spec *FuncSpec, callee *ssa.Function, ar
 			f.oblige(st, "FRAME", "call "+cname+" assigns "+t.Text, pos, Or(Ge(t.Base, vc.A0), Eq(t.Base, Zero), f.assignsAllow(t.Root+"|"+t.Path, t.Base)))
 		}
 	}
-	f.havocCall(st, pre, mods, targets)
+	f.havocCall(st, pre, mods, targets, spec.Owns)
 	// results
 	var results []Val
 	res := callee.Signature.Results()
@@ -356,7 +356,7 @@ func (f *Frame) ownAfterCall(st *State, t *AssignTarget, cname string, pos token
 
 // havocCall havocs comps in mods; objects that existed before the call keep
 // their contents unless covered by an assigns target.
-func (f *Frame) havocCall(st *State, pre *State, mods *ModSet, targets []*AssignTarget) {
+func (f *Frame) havocCall(st *State, pre *State, mods *ModSet, targets []*AssignTarget, owns bool) {
 	vc := f.vc
 	if mods.all {
 		f.unsupported("call may modify anything: %s", mods.why)
@@ -402,8 +402,35 @@ func (f *Frame) havocCall(st *State, pre *State, mods *ModSet, targets []*Assign
 		a := vc.fresh("A", SInt)
 		vc.fact(Ge(a, pre.alloc))
 		st.alloc = a
+		f.kindFacts(st, pre.alloc, mods)
 	}
 	f.closedFacts(st, names)
+	if owns {
+		// an owning callee returns a closed fresh region: objects it allocated
+		// hold only references to objects it allocated (or nil)
+		for _, k := range names {
+			if !isRefComp(k) {
+				continue
+			}
+			c := vc.get(st, k)
+			r := Term{"r!q", SInt}
+			in := And(Le(pre.alloc, r), Lt(r, st.alloc))
+			fr := func(e Term) Term { return Or(Eq(e, Zero), Ge(e, pre.alloc)) }
+			switch {
+			case strings.HasPrefix(k, "E|"):
+				j := Term{"j!q", SInt}
+				e := Select(Select(c, r), j)
+				vc.fact(Forall([]Term{r, j}, Imp(in, fr(e)), []Term{e}))
+			case strings.HasPrefix(k, "Mv|"):
+				kk := Term{"k!q", c.Sort.V.K}
+				e := Select(Select(c, r), kk)
+				vc.fact(Forall([]Term{r, kk}, Imp(in, fr(e)), []Term{e}))
+			default:
+				e := Select(c, r)
+				vc.fact(Forall([]Term{r}, Imp(in, fr(e)), []Term{e}))
+			}
+		}
+	}
 }
 
 // ---- dynamic calls ----
@@ -467,7 +494,7 @@ func (f *Frame) specOnlyCall(st *State, spec *FuncSpec, args []Val, sig *types.S
 			f.oblige(st, "FRAME", "call "+spec.Name+" assigns "+t.Text, pos, Or(Ge(t.Base, vc.A0), Eq(t.Base, Zero), f.assignsAllow(t.Root+"|"+t.Path, t.Base)))
 		}
 	}
-	f.havocCall(st, pre, vc.eng.specMods(spec), targets)
+	f.havocCall(st, pre, vc.eng.specMods(spec), targets, spec.Owns)
 	var results []Val
 	res := sig.Results()
 	for i := 0; i < res.Len(); i++ {
@@ -490,3 +517,25 @@ func (f *Frame) specOnlyCall(st *State, spec *FuncSpec, args []Val, sig *types.S
 }
 
 func (f *Frame) String() string { return fmt.Sprintf("frame(%s)", f.fname) }
+
+// kindFacts: objects allocated since lo have one of the kinds the code can
+// allocate (a fact about the code's Alloc/make/append sites).
+func (f *Frame) kindFacts(st *State, lo Term, mods *ModSet) {
+	vc := f.vc
+	vc.registerComp("Ty", SArr(SInt, SInt))
+	ty := vc.get(st, "Ty")
+	r := Term{"r!q", SInt}
+	var alts []Term
+	var ks []string
+	for k := range mods.kinds {
+		ks = append(ks, k)
+	}
+	sort.Strings(ks)
+	for _, k := range ks {
+		alts = append(alts, Eq(Select(ty, r), vc.kindTag(k)))
+	}
+	if mods.all {
+		return
+	}
+	vc.fact(Forall([]Term{r}, Imp(And(Le(lo, r), Lt(r, st.alloc)), Or(alts...)), []Term{Select(ty, r)}))
+}
